@@ -161,6 +161,16 @@ func (fs DirFs) AtomicCreate(dir, fname string, data []byte) {
 		break
 	}
 	defer unix.Close(fd)
+	// A call that fails leaves nothing behind: its staging file would stay in
+	// the root for good, and on a full file system it would keep the space
+	// that every later call needs. (The panic of the failure goes on after
+	// this.)
+	published := false
+	defer func() {
+		if !published {
+			unix.Unlinkat(fs.rootFd, tmpFile, 0)
+		}
+	}()
 	for len(data) > 0 {
 		n, err := unix.Write(fd, data)
 		if err != nil {
@@ -180,6 +190,7 @@ func (fs DirFs) AtomicCreate(dir, fname string, data []byte) {
 	if err != nil {
 		panic(err)
 	}
+	published = true
 }
 
 func (fs DirFs) Link(oldDir, oldName, newDir, newName string) bool {
